@@ -154,8 +154,9 @@ PerValue(c) ==
     [] c = "SE3"            -> {"inv", "R", "t", "rpy", "eul", "log", "det", "norm", "->UnitQuaternion"}
     [] c = "Quaternion"     -> {"conj", "norm", "log"}
     [] c = "UnitQuaternion" -> {"inv", "conj", "norm", "R", "rpy", "eul", "log"}
-    [] c = "Twist2"         -> {"inv"}
-    [] c = "Twist3"         -> {"inv"}
+    \* (exp / conversion to a pose of a multi-valued twist work value by value since fix 83566cd; line() maps over the values)
+    [] c = "Twist2"         -> {"inv", "exp", "->SE2"}
+    [] c = "Twist3"         -> {"inv", "exp", "line", "->SE3"}
     [] OTHER                -> {}
 
 \* explored and reported, not judged (not named by the statement)
@@ -166,8 +167,8 @@ PerValueExtra(c) ==
     [] c = "SO2"  -> {"->SE2"}
     [] c = "SE2"  -> {"->Twist2"}
     [] c = "Quaternion"     -> {"unit", "s", "v", "vec", "exp"}
-    [] c = "Twist3"         -> {"v", "w", "theta", "pitch", "pole", "unit", "S", "se3", "exp", "isunit", "isprismatic", "->SE3"}
-    [] c = "Twist2"         -> {"v", "w", "unit", "S", "se2", "exp", "isunit", "isprismatic", "->SE2"}
+    [] c = "Twist3"         -> {"v", "w", "theta", "pitch", "pole", "unit", "S", "se3", "isunit", "isprismatic"}
+    [] c = "Twist2"         -> {"v", "w", "unit", "S", "se2", "isunit", "isprismatic"}
     [] OTHER                -> {}
 
 MapOutcome(judged, m) ==
